@@ -61,6 +61,15 @@ EXTRA = {  # seeds that also violate a neighbouring property's statement
     'C09_r7_brpls_outer_stop_uses_inner_tol': ['C01'],
     'C11_r7_mpspline_reset_penalty_without_diff_order': ['C07'],
     'C10_r7_solve_pspline_fallback_drops_zero_weight_samples': ['C12'],
+    'C01_r8_iasls_default_weights_mapped_with_sort_order': ['C02'],
+    'C03_r8_banded_solver_setter_writes_before_validation': ['C15'],
+    'C04_r8_whittaker_system_2d_cached_shared_coef': ['C03'],
+    'C06_r8_eigen_decomposition_cache_key_omits_diff_order': ['C20'],
+    'C07_r8_diff_penalty_full_band_size_gate_too_low': ['C11'],
+    'C11_r8_diff_penalty_lower_only_size_gate_table': ['C06'],
+    'C12_r8_same_basis_keyed_on_total_knot_count': ['C03'],
+    'C17_r8_collab_pls_method_name_not_lowercased': ['C16'],
+    'C20_r8_individual_axes_first_partial_aliases_running_total': ['C17'],
 }
 
 
